@@ -371,6 +371,7 @@ class Zeroconf(QuietLogger):
         """Registers service information to the network with a default TTL.
         Zeroconf will then respond to requests for information for that
         service."""
+        info.set_server_if_missing()
         old_info = self.registry.async_get_info_name(info.key)
         # The records must be collected before the registry drops the memoised
         # ones: the application may have changed the object it registered.
